@@ -3,6 +3,7 @@ package jsonrpc2
 import (
 	"context"
 	"encoding/json"
+	"errors"
 	"fmt"
 	"net"
 	"sync"
@@ -163,6 +164,10 @@ func (r *Remote) Call(ctx context.Context, result interface{}, method string, pa
 	resp, err := r.receive(ctx, req.ID)
 	if err != nil {
 		return err
+	}
+	if resp.Response == nil {
+		// Reply with neither a result nor an error
+		return errors.New("jsonrpc2: missing response in RPC message")
 	}
 	return resp.UnmarshalResult(result)
 }
